@@ -523,7 +523,9 @@ impl Lexer<'_> {
             match mode {
                 LexerMode::ExpectSymbol(tok_type, tok_channel) => {
                     // If we were expecting a token - call lexing that will effectively
-                    // emit an error and the token
+                    // emit an error and the token. It pops the mode it handles
+                    // on its own, so we need to put the mode back first
+                    self.push_mode(LexerMode::ExpectSymbol(tok_type, tok_channel));
                     self.lex_expected_token(None, tok_type, tok_channel);
                 }
                 LexerMode::ExpectSemiOrEOF | LexerMode::MacroDo => {
@@ -566,8 +568,10 @@ impl Lexer<'_> {
                         }
                     }
                 }
-                LexerMode::StringExpr { .. } => {
+                LexerMode::StringExpr { allow_stat } => {
                     // This may happen if we have unbalanced `"` or `'` as the last character
+                    // The handler pops the mode on its own, so we need to put the mode back first
+                    self.push_mode(LexerMode::StringExpr { allow_stat });
                     self.handle_unterminated_str_expr(Payload::None);
                 }
                 LexerMode::MacroNameExpr(_, err) => {
